@@ -13,6 +13,7 @@ import (
 	"strconv"
 	"strings"
 	"sync"
+	"syscall"
 	"testing"
 	"unsafe"
 
@@ -137,13 +138,14 @@ func replayStub(steps []saStep, K int) string {
 }
 
 type region struct {
-	P   int    `json:"p"`
-	Lo  uint64 `json:"lo"`
-	Hi  uint64 `json:"hi"`
-	Len int    `json:"len"`
-	Src string `json:"src"`
-	Err bool   `json:"err"`
-	X   string `json:"x"` // execution / permission probe
+	P    int    `json:"p"`
+	Lo   uint64 `json:"lo"`
+	Hi   uint64 `json:"hi"`
+	Len  int    `json:"len"`
+	Src  string `json:"src"`
+	Err  bool   `json:"err"`
+	X    string `json:"x"` // execution / permission probe
+	want int32  // what the stub written into the region answers (checked again at the very end)
 }
 
 func callCode(addr uintptr) int {
@@ -185,14 +187,22 @@ func TestVerifStubFree(t *testing.T) {
 	rng := rand.New(rand.NewSource(int64(vEnvInt("VERIF_SEED", 1))))
 	G, K := vEnvInt("VERIF_G", 4), vEnvInt("VERIF_K", 8)
 	// VERIF_NOMMAP=1: executable mappings are refused for this whole process: the public Acquire must take the fallback path
-	nommap := os.Getenv("VERIF_NOMMAP") == "1"
-	if nommap {
+	// VERIF_NOMMAP=later: the first requests are served while executable mappings still work, THEN they are refused (an allocator
+	// that keeps state between requests must survive the failure of its refill)
+	mode := os.Getenv("VERIF_NOMMAP")
+	nommap := mode == "1" || mode == "later"
+	deny := func() {
 		if err := denyExecMmap(); err != nil {
 			t.Skip("cannot refuse executable mappings here: " + err.Error())
 		}
-		if _, _, err := acquireFromMMap(48); err == nil {
+		// (asked of the kernel directly: the allocator under test may well serve a request without a new mapping)
+		if m, err := syscall.Mmap(-1, 0, 4096, syscall.PROT_READ|syscall.PROT_WRITE|syscall.PROT_EXEC, syscall.MAP_PRIVATE|syscall.MAP_ANON); err == nil {
+			syscall.Munmap(m)
 			t.Skip("the filter did not take effect")
 		}
+	}
+	if mode == "1" {
+		deny()
 	}
 	of, _ := os.Create(out)
 	defer of.Close()
@@ -235,6 +245,25 @@ func TestVerifStubFree(t *testing.T) {
 		}
 		return "ok"
 	}
+	// phase 0 (mode later): 100 sequential requests of stub size while executable mappings work, then they are refused
+	if mode == "later" {
+		for j := 0; j < 100; j++ {
+			sp, err := Acquire(48)
+			r := region{P: 9, Len: 48, Src: "acquire"}
+			if err != nil {
+				r.Err = true
+			} else {
+				r.Lo, r.Hi = uint64(sp.Addr), uint64(sp.Addr)+uint64(len(*sp.Space))
+				if sp.typ == TypeHolder {
+					r.Src = "acquire-holder"
+				}
+				r.want = int32(90000 + j)
+				r.X = probe(sp, r.want)
+			}
+			regs = append(regs, r)
+		}
+		deny()
+	}
 	// phase 1: public Acquire, concurrent
 	var wg sync.WaitGroup
 	sizes := make([][]int, G)
@@ -262,7 +291,8 @@ func TestVerifStubFree(t *testing.T) {
 						r.Src = "acquire-holder"
 					}
 					mu.Lock() // executing a freshly written stub: serialise the probes, not the requests
-					r.X = probe(sp, int32(1000*i+j))
+					r.want = int32(1000*i + j)
+					r.X = probe(sp, r.want)
 					mu.Unlock()
 				}
 				mu.Lock()
@@ -272,10 +302,61 @@ func TestVerifStubFree(t *testing.T) {
 		}(i)
 	}
 	wg.Wait()
+	// burst: eight goroutines request stub-sized regions as fast as they can from a common start (no probe in between); every region
+	// is filled afterwards with a stub of its own and all of them are executed at the end. Overlaps are looked for here (sorted,
+	// adjacent) and reported as one record: the regions are too many for the pairwise invariant of the trace spec.
+	burstX := "ok"
+	if mode == "" {
+		nb := vEnvInt("VERIF_BURST", 300)
+		type br struct {
+			lo, hi uintptr
+			sp     *Space
+		}
+		got := make([][]br, 8)
+		start := make(chan struct{})
+		var bwg sync.WaitGroup
+		for i := 0; i < 8; i++ {
+			bwg.Add(1)
+			go func(i int) {
+				defer bwg.Done()
+				<-start
+				for j := 0; j < nb; j++ {
+					if sp, err := Acquire(48); err == nil {
+						got[i] = append(got[i], br{sp.Addr, sp.Addr + uintptr(len(*sp.Space)), sp})
+					}
+				}
+			}(i)
+		}
+		close(start)
+		bwg.Wait()
+		var all []br
+		for _, g := range got {
+			all = append(all, g...)
+		}
+		for k, r := range all {
+			if err := Write(r.sp, retStub(int32(500000+k))); err != nil {
+				burstX = "burst-write-error:" + err.Error()
+			}
+		}
+		for k, r := range all {
+			if v := callCode(r.lo); v != 500000+k && burstX == "ok" {
+				burstX = fmt.Sprintf("burst-region-%d-of-%d-answers-%d:handed-out-twice", k, len(all), v)
+			}
+		}
+		sort.Slice(all, func(a, b int) bool { return all[a].lo < all[b].lo })
+		for k := 1; k < len(all); k++ {
+			if all[k].lo < all[k-1].hi && burstX == "ok" {
+				burstX = fmt.Sprintf("burst-regions-overlap:%#x-%#x-and-%#x-%#x", all[k-1].lo, all[k-1].hi, all[k].lo, all[k].hi)
+			}
+		}
+	}
 	// phase 2: fallback path, concurrent, until the (shrunk) reserve is exhausted
 	saveOff, saveMax := placeHolderIns.off, placeHolderIns.max
 	R := vEnvInt("VERIF_RBYTES", 48*40)
 	placeHolderIns.max = placeHolderIns.off + uintptr(R)
+	if placeHolderIns.max > saveMax {
+		placeHolderIns.max = saveMax // (phase 1 may have used most of the reserve already: never pretend it is larger than it is)
+	}
 	resLo, resHi := uint64(placeHolderIns.off), uint64(placeHolderIns.max)
 	if nommap {
 		resLo = uint64(placeHolderIns.min) // phase 1 was served from the reserve too
@@ -314,6 +395,16 @@ func TestVerifStubFree(t *testing.T) {
 		}
 	}
 	placeHolderIns.off, placeHolderIns.max = saveOff, saveMax
+	// at the very end every region handed out by the public Acquire must still answer what was written into it (a region handed
+	// out twice has been overwritten by then)
+	for k := range regs {
+		r := &regs[k]
+		if !r.Err && r.X == "ok" && r.Src != "holder" {
+			if got := callCode(uintptr(r.Lo)); got != int(r.want) {
+				r.X = fmt.Sprintf("overwritten-later:answers-%d-want-%d", got, r.want)
+			}
+		}
+	}
 	sort.SliceStable(regs, func(a, b int) bool { return regs[a].Lo < regs[b].Lo })
 	// TLC integers are 32 bit: replace addresses by their rank among all endpoints (order preserving,
 	// so disjointness and containment are unchanged); sizes travel separately in bytes.
@@ -345,6 +436,7 @@ func TestVerifStubFree(t *testing.T) {
 		bx = fmt.Sprintf("reserve-of-%d-bytes-reaches-into-%s", saveMax-placeHolderIns.min, f1.Name())
 	}
 	enc.Encode(map[string]interface{}{"ev": "bounds", "lo": 0, "hi": 0, "p": 0, "len": 0, "size": 0, "src": "", "err": false, "x": bx})
+	enc.Encode(map[string]interface{}{"ev": "bounds", "lo": 0, "hi": 0, "p": 0, "len": 0, "size": 0, "src": "", "err": false, "x": burstX})
 	for _, r := range regs {
 		lo, hi := 0, 0
 		if !r.Err {
